@@ -4,8 +4,8 @@
    models of Model/Handshake.v, Model/Origin.v and Model/CloseCodec.v compute.  A changed literal, comparison, order of checks or
    flag assignment in one of those places changes Gen/*.v and breaks a proof here. *)
 From Coq Require Import List NArith ZArith Bool Lia.
-From WS Require Import Base.Words Base.Str Gen.Consts Gen.CloseCode Gen.NegoCode Gen.DialCode Gen.OriginCode Gen.ClosePayloadCode
-  Model.CloseCodec Model.Fold Model.Glob Model.Url Model.Origin Model.Proto Model.Handshake.
+From WS Require Import Base.Words Base.Str Gen.Consts Gen.CloseCode Gen.NegoCode Gen.DialCode Gen.OriginCode Gen.ClosePayloadCode Gen.TakeoverCode Gen.HeaderCode
+  Model.CloseCodec Model.Fold Model.Glob Model.Url Model.Origin Model.Proto Model.Handshake Model.HsCompose.
 Import ListNotations.
 
 (* ---------- strings ---------- *)
@@ -211,3 +211,59 @@ Proof.
     rewrite H0, H2. cbn [firstn skipn parse_close].
     destruct (valid_wire_code (Z.of_N (be_val [a; b]))); reflexivity.
 Qed.
+
+(* ---------- per-direction context takeover (read.go / write.go flateContextTakeover) ---------- *)
+Definition is_client (r : role) : bool := match r with Client => true | Server => false end.
+
+Theorem reader_takeover_is_source : forall r c, reader_takeover r c = gen_reader_takeover (is_client r) (cnct c) (snct c).
+Proof. intros [|] c; reflexivity. Qed.
+
+Theorem writer_takeover_is_source : forall r c, writer_takeover r c = gen_writer_takeover (is_client r) (cnct c) (snct c).
+Proof. intros [|] c; reflexivity. Qed.
+
+(* ---------- compressionOptions.String ---------- *)
+Theorem render_copts_is_source : forall c, render_copts c = gen_render_copts (cnct c) (snct c).
+Proof. intros c. unfold render_copts, gen_render_copts. destruct (cnct c); destruct (snct c); reflexivity. Qed.
+
+(* ---------- the headers handshakeRequest and accept set ---------- *)
+(* the key under which net/http's Header.Set stores a value: textproto.CanonicalMIMEHeaderKey on an ASCII token *)
+Local Open Scope N_scope.
+Definition ck_up (c : N) : N := if (97 <=? c) && (c <=? 122) then c - 32 else c.
+Definition ck_low (c : N) : N := if (65 <=? c) && (c <=? 90) then c + 32 else c.
+Fixpoint canon_key_from (upper : bool) (s : bytes) : bytes :=
+  match s with [] => [] | c :: r => (if upper then ck_up c else ck_low c) :: canon_key_from (c =? 45) r end.
+Definition canon_key (s : bytes) : bytes := canon_key_from true s.
+Definition as_headers (l : list (bytes * bytes)) : headers := map (fun kv => (canon_key (fst kv), [snd kv])) l.
+Local Close Scope N_scope.
+
+Theorem dial_headers_is_source : forall o key64,
+  dial_headers o key64 =
+  as_headers (gen_dial_headers key64 (Z.of_nat (length (d_subprotocols o))) (hs_join [44%N] (d_subprotocols o))
+                (match dial_offer o with Some _ => true | None => false end)
+                (match dial_offer o with Some c => gen_render_copts (cnct c) (snct c) | None => [] end)).
+Proof.
+  intros o key64. unfold dial_headers, gen_dial_headers.
+  assert (H : (0 <? Z.of_nat (length (d_subprotocols o)))%Z = match d_subprotocols o with [] => false | _ => true end).
+  { destruct (d_subprotocols o) as [|x l]; cbn [length]; [reflexivity|]. apply Z.ltb_lt. lia. }
+  rewrite H.
+  destruct (d_subprotocols o) as [|x l]; destruct (dial_offer o) as [c|]; rewrite ?render_copts_is_source; reflexivity.
+Qed.
+
+Theorem dial_method_is_source : forall host o key64, q_method (lib_request host o key64) = gen_dial_method.
+Proof. reflexivity. Qed.
+
+Theorem lib_response_is_source : forall a, ar_status a = Z.to_nat gen_accept_status ->
+  lib_response a =
+  {| p_status := Z.to_nat gen_accept_status;
+     p_hdrs := as_headers (gen_accept_headers (ar_accept a) (ar_subproto a)
+                 (match ar_subproto a with [] => false | _ => true end)
+                 (match ar_copts a with Some _ => true | None => false end)
+                 (match ar_copts a with Some c => gen_render_copts (cnct c) (snct c) | None => [] end)) |}.
+Proof.
+  intros a H. unfold lib_response, gen_accept_headers. rewrite H.
+  destruct (ar_subproto a) as [|x l]; destruct (ar_copts a) as [c|]; rewrite ?render_copts_is_source; reflexivity.
+Qed.
+
+(* an upgrading decision of the model carries the status the source writes *)
+Theorem accept_status_is_source : forall r o, ar_status (accept_decide r o) = 101%nat -> ar_status (accept_decide r o) = Z.to_nat gen_accept_status.
+Proof. intros r o H. rewrite H. reflexivity. Qed.
